@@ -44,6 +44,7 @@ INVARIANTS
   C07_CallerEndsAlone
   C07_HandlerReleased
   C07_OneLegalOutcome
+  C07_NoMixture
   C08_AtMostOneInvocation
   C08_ExactlyOneWhenCompleted
   C08_IdsIncreasing
